@@ -41,12 +41,19 @@ func findSpeciate(p *Prog) (*speciateShape, string) {
 // Shared by C08.3 and C02.4.
 func (r *Run) checkSpeciatePartition(label string) {
 	p := r.P
-	sh, why := findSpeciate(p)
-	if sh == nil {
-		r.Undecided(label, "-", why)
+	fn := p.Func(PkgG, "Population.speciate")
+	tm := NewTermer(fn)
+	// the loop over the organisms handed in (independent of how the species search itself is written)
+	sh := &speciateShape{fn: fn, tm: tm}
+	for _, l := range Loops(fn) {
+		if loopRangesOver(tm, l, "p2") && (sh.outer == nil || len(l.Blocks) > len(sh.outer.Blocks)) {
+			sh.outer = l
+		}
+	}
+	if sh.outer == nil {
+		r.Undecided(label, p.Pos(fn.Pos()), "speciate has no loop over the organisms it is given")
 		return
 	}
-	fn, tm := sh.fn, sh.tm
 	r.Fn(FuncName(fn))
 	create := p.Func(PkgG, "createFirstSpecies")
 	addOrg := p.Func(PkgG, "Species.addOrganism")
